@@ -133,3 +133,85 @@ def _(self, other, op):
             and forall(lambda k: implies(0 <= k and k <= old(len(self._number_add_expr._raw_ops)), self._number_add_expr._raw_operands[k] is old(self._number_add_expr._raw_operands[k])), self._number_add_expr._raw_operands[k]))
     ensures(implies(old(len(other._number_add_expr._raw_ops)) == 0,
             self._number_add_expr._raw_operands[len(self._number_add_expr._raw_ops)] is old(other._number_add_expr._raw_operands[0])))
+
+# ---- the in-place dunder operators: the same tree, with the operator character each of them stands for
+# (the decorator _operand_type_check is outside the contract: it converts int/Decimal operands to a fresh NumberExpr and copies NumberExpr operands,
+#  so the body runs with a NumberExpr operand distinct from self; its conversion is bounded-checked by the arithmetic driver)
+@contract('NumberExpr.__iadd__')
+def _(self, other):
+    requires(ExprShape(self) and ExprShape(other) and self is not other)
+    modifies('NumberExprGenerated._number_add_expr@self', 'RawTokenModel._raw_text@fresh', 'NumberParenExpr._token_store@fresh', 'NumberParenExpr._left_paren@fresh', 'NumberParenExpr._inner_expr@fresh',
+             'NumberParenExpr._right_paren@fresh', 'NumberMulExpr._raw_operands@fresh', 'NumberMulExpr._raw_ops@fresh', 'NumberAddExpr._raw_operands@fresh', 'NumberAddExpr._raw_ops@fresh',
+             'RawTreeModel._token_store@fresh', 'list[NumberAtomExpr]@fresh', 'list[MulOp]@fresh', 'list[NumberMulExpr]@fresh', 'list[AddOp]@fresh', 'list[RawTokenModel]@fresh')
+    ensures(result is self and fresh(self._number_add_expr) and AddShape(self._number_add_expr))
+    ensures(len(self._number_add_expr._raw_ops) == old(len(self._number_add_expr._raw_ops)) + 1
+            and fresh(self._number_add_expr._raw_ops[old(len(self._number_add_expr._raw_ops))]) and self._number_add_expr._raw_ops[old(len(self._number_add_expr._raw_ops))]._raw_text == '+'
+            and forall(lambda k: implies(0 <= k and k < old(len(self._number_add_expr._raw_ops)), self._number_add_expr._raw_ops[k] is old(self._number_add_expr._raw_ops[k])), self._number_add_expr._raw_ops[k])
+            and forall(lambda k: implies(0 <= k and k <= old(len(self._number_add_expr._raw_ops)), self._number_add_expr._raw_operands[k] is old(self._number_add_expr._raw_operands[k])), self._number_add_expr._raw_operands[k]))
+    ensures(implies(old(len(other._number_add_expr._raw_ops)) == 0,
+            self._number_add_expr._raw_operands[len(self._number_add_expr._raw_ops)] is old(other._number_add_expr._raw_operands[0])))
+
+@contract('NumberExpr.__isub__')
+def _(self, other):
+    requires(ExprShape(self) and ExprShape(other) and self is not other)
+    modifies('NumberExprGenerated._number_add_expr@self', 'RawTokenModel._raw_text@fresh', 'NumberParenExpr._token_store@fresh', 'NumberParenExpr._left_paren@fresh', 'NumberParenExpr._inner_expr@fresh',
+             'NumberParenExpr._right_paren@fresh', 'NumberMulExpr._raw_operands@fresh', 'NumberMulExpr._raw_ops@fresh', 'NumberAddExpr._raw_operands@fresh', 'NumberAddExpr._raw_ops@fresh',
+             'RawTreeModel._token_store@fresh', 'list[NumberAtomExpr]@fresh', 'list[MulOp]@fresh', 'list[NumberMulExpr]@fresh', 'list[AddOp]@fresh', 'list[RawTokenModel]@fresh')
+    ensures(result is self and fresh(self._number_add_expr) and AddShape(self._number_add_expr))
+    ensures(len(self._number_add_expr._raw_ops) == old(len(self._number_add_expr._raw_ops)) + 1
+            and fresh(self._number_add_expr._raw_ops[old(len(self._number_add_expr._raw_ops))]) and self._number_add_expr._raw_ops[old(len(self._number_add_expr._raw_ops))]._raw_text == '-'
+            and forall(lambda k: implies(0 <= k and k < old(len(self._number_add_expr._raw_ops)), self._number_add_expr._raw_ops[k] is old(self._number_add_expr._raw_ops[k])), self._number_add_expr._raw_ops[k])
+            and forall(lambda k: implies(0 <= k and k <= old(len(self._number_add_expr._raw_ops)), self._number_add_expr._raw_operands[k] is old(self._number_add_expr._raw_operands[k])), self._number_add_expr._raw_operands[k]))
+    ensures(implies(old(len(other._number_add_expr._raw_ops)) == 0,
+            self._number_add_expr._raw_operands[len(self._number_add_expr._raw_ops)] is old(other._number_add_expr._raw_operands[0])))
+
+@contract('NumberExpr.__imul__')
+def _(self, other):
+    requires(ExprShape(self) and ExprShape(other) and self is not other)
+    modifies('NumberExprGenerated._number_add_expr@self', 'RawTokenModel._raw_text@fresh', 'NumberParenExpr._token_store@fresh', 'NumberParenExpr._left_paren@fresh', 'NumberParenExpr._inner_expr@fresh',
+             'NumberParenExpr._right_paren@fresh', 'NumberMulExpr._raw_operands@fresh', 'NumberMulExpr._raw_ops@fresh', 'NumberAddExpr._raw_operands@fresh', 'NumberAddExpr._raw_ops@fresh',
+             'RawTreeModel._token_store@fresh', 'list[NumberAtomExpr]@fresh', 'list[MulOp]@fresh', 'list[NumberMulExpr]@fresh', 'list[AddOp]@fresh', 'list[RawTokenModel]@fresh')
+    ensures(result is self and fresh(self._number_add_expr) and AddShape(self._number_add_expr) and len(self._number_add_expr._raw_ops) == 0 and fresh(self._number_add_expr._raw_operands[0]))
+    ensures(len(self._number_add_expr._raw_operands[0]._raw_ops) >= 1
+            and fresh(self._number_add_expr._raw_operands[0]._raw_ops[len(self._number_add_expr._raw_operands[0]._raw_ops) - 1])
+            and self._number_add_expr._raw_operands[0]._raw_ops[len(self._number_add_expr._raw_operands[0]._raw_ops) - 1]._raw_text == '*')
+    ensures(implies(old(len(self._number_add_expr._raw_ops)) == 0,
+            len(self._number_add_expr._raw_operands[0]._raw_ops) == old(len(self._number_add_expr._raw_operands[0]._raw_ops)) + 1
+            and forall(lambda k: implies(0 <= k and k < old(len(self._number_add_expr._raw_operands[0]._raw_ops)),
+                    self._number_add_expr._raw_operands[0]._raw_ops[k] is old(self._number_add_expr._raw_operands[0]._raw_ops[k])), self._number_add_expr._raw_operands[0]._raw_ops[k])
+            and forall(lambda k: implies(0 <= k and k <= old(len(self._number_add_expr._raw_operands[0]._raw_ops)),
+                    self._number_add_expr._raw_operands[0]._raw_operands[k] is old(self._number_add_expr._raw_operands[0]._raw_operands[k])), self._number_add_expr._raw_operands[0]._raw_operands[k])))
+    ensures(implies(old(len(self._number_add_expr._raw_ops)) > 0,
+            len(self._number_add_expr._raw_operands[0]._raw_ops) == 1 and isinstance(self._number_add_expr._raw_operands[0]._raw_operands[0], NumberParenExpr)
+            and as_ref(self._number_add_expr._raw_operands[0]._raw_operands[0], 'NumberParenExpr')._inner_expr is old(self._number_add_expr)))
+    ensures(implies(old(len(other._number_add_expr._raw_ops)) == 0 and old(len(other._number_add_expr._raw_operands[0]._raw_ops)) == 0,
+            self._number_add_expr._raw_operands[0]._raw_operands[len(self._number_add_expr._raw_operands[0]._raw_ops)] is old(other._number_add_expr._raw_operands[0]._raw_operands[0])))
+    ensures(implies(not (old(len(other._number_add_expr._raw_ops)) == 0 and old(len(other._number_add_expr._raw_operands[0]._raw_ops)) == 0),
+            isinstance(self._number_add_expr._raw_operands[0]._raw_operands[len(self._number_add_expr._raw_operands[0]._raw_ops)], NumberParenExpr)
+            and as_ref(self._number_add_expr._raw_operands[0]._raw_operands[len(self._number_add_expr._raw_operands[0]._raw_ops)], 'NumberParenExpr')._inner_expr is old(other._number_add_expr)))
+
+@contract('NumberExpr.__itruediv__')
+def _(self, other):
+    requires(ExprShape(self) and ExprShape(other) and self is not other)
+    modifies('NumberExprGenerated._number_add_expr@self', 'RawTokenModel._raw_text@fresh', 'NumberParenExpr._token_store@fresh', 'NumberParenExpr._left_paren@fresh', 'NumberParenExpr._inner_expr@fresh',
+             'NumberParenExpr._right_paren@fresh', 'NumberMulExpr._raw_operands@fresh', 'NumberMulExpr._raw_ops@fresh', 'NumberAddExpr._raw_operands@fresh', 'NumberAddExpr._raw_ops@fresh',
+             'RawTreeModel._token_store@fresh', 'list[NumberAtomExpr]@fresh', 'list[MulOp]@fresh', 'list[NumberMulExpr]@fresh', 'list[AddOp]@fresh', 'list[RawTokenModel]@fresh')
+    ensures(result is self and fresh(self._number_add_expr) and AddShape(self._number_add_expr) and len(self._number_add_expr._raw_ops) == 0 and fresh(self._number_add_expr._raw_operands[0]))
+    ensures(len(self._number_add_expr._raw_operands[0]._raw_ops) >= 1
+            and fresh(self._number_add_expr._raw_operands[0]._raw_ops[len(self._number_add_expr._raw_operands[0]._raw_ops) - 1])
+            and self._number_add_expr._raw_operands[0]._raw_ops[len(self._number_add_expr._raw_operands[0]._raw_ops) - 1]._raw_text == '/')
+    ensures(implies(old(len(self._number_add_expr._raw_ops)) == 0,
+            len(self._number_add_expr._raw_operands[0]._raw_ops) == old(len(self._number_add_expr._raw_operands[0]._raw_ops)) + 1
+            and forall(lambda k: implies(0 <= k and k < old(len(self._number_add_expr._raw_operands[0]._raw_ops)),
+                    self._number_add_expr._raw_operands[0]._raw_ops[k] is old(self._number_add_expr._raw_operands[0]._raw_ops[k])), self._number_add_expr._raw_operands[0]._raw_ops[k])
+            and forall(lambda k: implies(0 <= k and k <= old(len(self._number_add_expr._raw_operands[0]._raw_ops)),
+                    self._number_add_expr._raw_operands[0]._raw_operands[k] is old(self._number_add_expr._raw_operands[0]._raw_operands[k])), self._number_add_expr._raw_operands[0]._raw_operands[k])))
+    ensures(implies(old(len(self._number_add_expr._raw_ops)) > 0,
+            len(self._number_add_expr._raw_operands[0]._raw_ops) == 1 and isinstance(self._number_add_expr._raw_operands[0]._raw_operands[0], NumberParenExpr)
+            and as_ref(self._number_add_expr._raw_operands[0]._raw_operands[0], 'NumberParenExpr')._inner_expr is old(self._number_add_expr)))
+    ensures(implies(old(len(other._number_add_expr._raw_ops)) == 0 and old(len(other._number_add_expr._raw_operands[0]._raw_ops)) == 0,
+            self._number_add_expr._raw_operands[0]._raw_operands[len(self._number_add_expr._raw_operands[0]._raw_ops)] is old(other._number_add_expr._raw_operands[0]._raw_operands[0])))
+    ensures(implies(not (old(len(other._number_add_expr._raw_ops)) == 0 and old(len(other._number_add_expr._raw_operands[0]._raw_ops)) == 0),
+            isinstance(self._number_add_expr._raw_operands[0]._raw_operands[len(self._number_add_expr._raw_operands[0]._raw_ops)], NumberParenExpr)
+            and as_ref(self._number_add_expr._raw_operands[0]._raw_operands[len(self._number_add_expr._raw_operands[0]._raw_ops)], 'NumberParenExpr')._inner_expr is old(other._number_add_expr)))
+
